@@ -60,6 +60,14 @@ Theorem C12_mem_victim_is_oldest_queued : forall ord l vs m,
   forall i q, In i ord -> find_id i l = Some q -> queuedb q = true -> ~ In i vs -> m_recv m <= m_recv q.
 Proof. intros ord l vs m H. exact (proj2 (mem_oldest_min ord l vs None m H)). Qed.
 
+(** memory backend, over every history: the order log covers every stored id (invariant), hence the
+    first planned victim is an oldest queued message of the whole store *)
+Theorem C12_mem_first_victim_is_oldest_of_store : forall c xs m,
+  let s := snd (run Mem c init xs) in
+  mem_oldest (order s) (msgs s) [] None = Some m ->
+  In m (msgs s) /\ queuedb m = true /\ forall q, In q (msgs s) -> queuedb q = true -> m_recv m <= m_recv q.
+Proof. exact mem_first_victim_is_oldest. Qed.
+
 (** nothing but an enqueue or an operator requeue/resume raises the active count *)
 Theorem C12_only_enqueue_raises_active : forall fl c s x o s' r,
   Inv s -> raises_active x = false -> step fl c s x o = (s', r) -> active (msgs s') <= active (msgs s).
@@ -84,3 +92,4 @@ Print Assumptions C12_mem_plan_sound.
 Print Assumptions C12_sql_victim_is_oldest_queued.
 Print Assumptions C12_mem_victim_is_oldest_queued.
 Print Assumptions C12_only_enqueue_raises_active.
+Print Assumptions C12_mem_first_victim_is_oldest_of_store.
